@@ -200,7 +200,7 @@ def p_c15(facts, rep, tier):
     rep.floor("held->acquired pairs", npairs, 60)
     rep.floor("L2 mutator call sites", n2, 9)
     rep.floor("L3 obligations", n3, 3)
-    rep.floor("L5 obligations", n5, 16)
+    rep.floor("L5 obligations", n5, 12)
     rep.floor("L6 obligations", n6, 1)
     rep.floor("L7 obligations", n7, 5)
     rep.floor("C15 witness doctests", nw, 5)
